@@ -275,7 +275,9 @@ def gen_annotation(rng: Any) -> str:
         n = gen_ann(rng, rng.randint(1, 3))
         if _starred_in_slice_bound(n):
             continue
-        if unquote(n, True) is not None and naive_splice(n) is None:
+        if unquote(n, True) is None:
+            continue      # strings that spell no expression come from BAD_ANNOTS, in simple shapes
+        if naive_splice(n) is None:
             continue      # e.g. x | "not y" is displayed x|not y, not Python at all: the known unstrung-operand defect, kept out
         t = expr_src(n)
         if len(t) <= MAXLEN and _compiles('def f(p: %s): pass' % t):
@@ -401,8 +403,10 @@ def naive_splice(node: ast.AST) -> Optional[ast.AST]:
                         failed.append(1)
                         return c
                     t = ast.unparse(ast.fix_missing_locations(q))
-                    if not isinstance(q, (ast.UnaryOp, ast.BinOp, ast.BoolOp)):
-                        t = '(' + t + ')'      # only the operator nodes _OperatorDelimiter handles lose them
+                    if not (isinstance(q, (ast.UnaryOp, ast.BinOp, ast.BoolOp)) and getattr(c, '_c14_operand', False)):
+                        # only the operator nodes _OperatorDelimiter handles lose them, and only as operands of
+                        # such a node (a subscripted value, for instance, is parenthesised by other code)
+                        t = '(' + t + ')'
                     key = '__S%d__' % len(holes)
                     holes[key] = t
                     return ast.Name(key, ast.Load())
@@ -413,7 +417,17 @@ def naive_splice(node: ast.AST) -> Optional[ast.AST]:
                                                 and _is_literal(cc.parse_string(x.value.value) or x.value))
                 v = self.visit(x.value)
                 return ast.Subscript(v, x.slice if lit else self.visit(x.slice), x.ctx)
-        out = ast.unparse(ast.fix_missing_locations(R().visit(copy.deepcopy(n))))
+        n2 = copy.deepcopy(n)
+
+        def mark(x: ast.AST, under_new_node: bool) -> None:
+            # visit_Subscript builds a NEW Subscript node (no `parent`): when the colorizer reaches it, Parentage is
+            # re-run on everything below it and the parentheses there come out right
+            for ch in ast.iter_child_nodes(x):
+                if isinstance(ch, ast.Constant) and isinstance(x, (ast.UnaryOp, ast.BinOp, ast.BoolOp)) and not under_new_node:
+                    ch._c14_operand = True
+                mark(ch, under_new_node or isinstance(ch, ast.Subscript))
+        mark(n2, isinstance(n2, ast.Subscript))
+        out = ast.unparse(ast.fix_missing_locations(R().visit(n2)))
         return None if failed else out
     t = text_of(node)
     if t is None:
